@@ -979,7 +979,34 @@ def _check_conv(case, ctx):
 
 
 # ----------------------------------------------------------------------------
+def _guard_targets():
+    from pyphysim.subspace import metrics, projections
+    from pyphysim.util import conversion, misc
+    t = [(projections, n) for n in ("calcProjectionMatrix",
+                                    "calcOrthogonalProjectionMatrix")]
+    t += [(projections.Projection, n) for n in ("project", "oProject",
+                                                "reflect", "__init__")]
+    t += [(metrics, n) for n in ("calc_principal_angles",
+                                 "calc_chordal_distance",
+                                 "calc_chordal_distance_2",
+                                 "calc_chordal_distance_from_principal_angles")]
+    t += [(misc, n) for n in ("gmd", "calc_whitening_matrix",
+                              "update_inv_sum_diag", "peig", "leig",
+                              "least_right_singular_vectors",
+                              "get_principal_component_matrix")]
+    t += [(conversion, n) for n in ("dB2Linear", "linear2dB", "dBm2Linear",
+                                    "linear2dBm", "SNR_dB_to_EbN0_dB",
+                                    "EbN0_dB_to_SNR_dB")]
+    return t
+
+
 def check(case, ctx):
+    from ..core import GuardedCalls
+    with GuardedCalls(_guard_targets(), dict(part=case["part"])):
+        return _check(case, ctx)
+
+
+def _check(case, ctx):
     part = case["part"]
     if part == "proj":
         return _check_proj(case, ctx)
